@@ -161,6 +161,7 @@ func (t Time) Add(input Quantity) (Time, error) {
 		return Time{}, err
 	}
 	duration = roundToTimePrecision(timeMap[t.l], duration)
+	duration = truncateToLayout(t.l, duration)
 	return Time{t.time.Add(duration), t.l}, nil
 }
 
@@ -172,6 +173,7 @@ func (t Time) Sub(input Quantity) (Time, error) {
 		return Time{}, err
 	}
 	duration = roundToTimePrecision(timeMap[t.l], duration)
+	duration = truncateToLayout(t.l, duration)
 	return Time{t.time.Add(-duration), t.l}, nil
 }
 
